@@ -1489,6 +1489,14 @@ VOTEPARAMS = [
     dict(VP_COMMON, name="sort_voting_params", file="trackers/sort/simple_api.rs", impl=r"impl Sort \{"),
 ]
 
+# ---- batch requests: detections grouped per scene (C06)
+BATCHREQ = [
+    dict(group="BatchReq", name="batch_request_add", file="trackers/batch.rs", impl=r"impl<T> PredictionBatchRequest<T> \{", fn="add", cps=True, imperative=True,
+         sig="{T : Type} (batch : List (Nat × List T)) (batch_size : Nat) (scene_id : Nat) (elt : T) : Unit × List (Nat × List T) × Nat", ret="({0}, batch, batch_size)",
+         fieldpath={"self.batch": "batch", "self.batch_size": "batch_size"}, lockmethods=("lock", "unwrap"),
+         method={"lock": "{0}", "unwrap": "{0}", "len": "List.length {0}"}, mutmethods={"insert": "mapSet {0} {1} {2}"}),
+]
+
 # ---- the per-detection loop of `Sort::predict_with_scene`: apply the winners, one record per detection (C01)
 def pick_apply(stmts):
     """from `let mut res = Vec::default();` to the loop that fills it (the tail `res` is the value)"""
@@ -1661,7 +1669,7 @@ LOGIC = [
 def gen(repo, cfgs, header, footer):
     out, unread = [header], []
     for c in cfgs:
-        if c in LOGIC or c in TRACK or c in VOTING or c in TRACK_DIST or c in STORE or c in RECORDS or c in AUTOWASTE or c in VISVOTE or c in STORE_MAP or c in STORE_ADD or c in SORTVOTE or c in IDLE or c in TRACK_BUILD or c in APPLY or c in GC or c in VOTEPARAMS:
+        if c in LOGIC or c in TRACK or c in VOTING or c in TRACK_DIST or c in STORE or c in RECORDS or c in AUTOWASTE or c in VISVOTE or c in STORE_MAP or c in STORE_ADD or c in SORTVOTE or c in IDLE or c in TRACK_BUILD or c in APPLY or c in GC or c in VOTEPARAMS or c in BATCHREQ:
             c = dict(c, scalar=c.get("scalar", "Rat"))
         path = os.path.join(repo, "src", c["file"])
         try:
@@ -1980,6 +1988,7 @@ def main():
     jobs.append(("LSortVoting.lean", SORTVOTE, "import SimVerif.Gen.LBase\n" + HEADER_L + PRELUDE_SORTVOTE, "SimVerif.Gen.L"))
     jobs.append(("LIdle.lean", IDLE, "import SimVerif.Gen.LEpoch\nimport SimVerif.Gen.LEpochDb\n" + HEADER_L, "SimVerif.Gen.L"))
     jobs.append(("LVoteParams.lean", VOTEPARAMS, HEADER_L + PRELUDE_VP, "SimVerif.Gen.L"))
+    jobs.append(("LBatchReq.lean", BATCHREQ, "import SimVerif.Gen.LBase\n" + HEADER_L, "SimVerif.Gen.L"))
     jobs.append(("LGc.lean", GC, "import SimVerif.Gen.LEpoch\n" + HEADER_L, "SimVerif.Gen.L"))
     jobs.append(("LApply.lean", APPLY, "import SimVerif.Gen.LBase\n" + HEADER_L, "SimVerif.Gen.L"))
     jobs.append(("LTrackBuild.lean", TRACK_BUILD, "import SimVerif.Model.Track\n" + HEADER_L + "open SimVerif\n", "SimVerif.Gen.L"))
